@@ -55,9 +55,9 @@ Expected(ins) == IF ins.label = None /\ ins.out = None /\ ins.cmd = None THEN [t
 \* "qend": unterminated quoted last argument; "esc": an undocumented escape \x inside an argument;
 \* "bsend": backslash at the end of the line; "nameq"/"namebs": a name that begins with a quote /
 \* contains a backslash; "bang": '!' alone; "bangx": unknown pre-processor command
-MalformedKinds == {"qend", "esc", "escvar", "bsend", "nameq", "namebs", "bang", "bangx"}
-ErrOf(kind) == CASE kind = "qend" -> "MissingEndQuotes"
-                 [] kind \in {"esc", "escvar", "bsend"} -> "ControlWithoutValidValue"
+MalformedKinds == {"qend", "esc", "escvar", "bsend", "nameq", "namebs", "bang", "bangx", "preqend", "preesc"}
+ErrOf(kind) == CASE kind \in {"qend", "preqend"} -> "MissingEndQuotes"
+                 [] kind \in {"esc", "escvar", "bsend", "preesc"} -> "ControlWithoutValidValue"
                  [] kind = "nameq" -> "InvalidQuotesLocation"
                  [] kind = "namebs" -> "InvalidControlLocation"
                  [] kind = "bang" -> "PreProcessNoCommandFound"
@@ -84,6 +84,9 @@ Malformed(kind, ins, a, x) ==        \* ins has a command; a = an extra argument
     [] kind = "bsend"  -> pre \o <<SP>> \o <<120, BS>>
     [] kind = "nameq"  -> NamePrefix(ins) \o <<QUOTE>> \o ins.cmd \o <<QUOTE>>
     [] kind = "namebs" -> NamePrefix(ins) \o ins.cmd \o <<BS, BS>> \o <<x>>
+    \* the arguments of a (known) pre-processor command are scanned like any other arguments
+    [] kind = "preqend" -> LeadOf(x) \o <<BANG, 112, 114, 105, 110, 116, SP, QUOTE>> \o Esc(a, FALSE)
+    [] kind = "preesc"  -> LeadOf(x) \o <<BANG, 112, 114, 105, 110, 116, SP, QUOTE>> \o Esc(a, FALSE) \o <<BS, 97, QUOTE>>
     [] kind = "bang"   -> LeadOf(x) \o <<BANG>> \o Spaces(Len(a))
     [] kind = "bangx"  -> LeadOf(x) \o <<BANG, 122, 122>> \o (IF a = <<>> THEN <<>> ELSE <<SP>> \o Form(a, TRUE, FALSE))
 =============================================================================
